@@ -16,7 +16,7 @@ package main
 // Known findings (as-is models, applied only when the trigger predicate on the INPUT holds):
 //   F-JAN1     trigger: timeframe 1D and some written row falls on January 1.
 //              as-is: rows of January-1 intervals are never returned (slot 0 is written into the header).
-//   F-4HQUERY  trigger: timeframe 4H. as-is: ExecuteQuery answers "no files returned from query parse" (it
+//   F-4H       trigger: timeframe 4H. as-is: ExecuteQuery answers "no files returned from query parse" (it
 //              looks for the 2H bucket). The stored data are then read through planner+reader on the
 //              unmodified key (queryDirect) and judged by the same oracle.
 //   F-PREVYEAR trigger: a request contains a row k>=1 with year(k) == year(row 0), slot(k) == slot(k-1)
@@ -57,7 +57,7 @@ const c08period = 25 // cases per stratum cycle: 0 jan1, 1 prevyear, 2 jan1+prev
 
 func c08cases(tier string) int {
 	if tier == "thorough" {
-		return 6000
+		return 3000
 	}
 	return 400
 }
@@ -502,9 +502,9 @@ func c08run(c *runner.Ctx) runner.Result {
 			}
 			tbl = &ms.Table{Cols: map[string]interface{}{}}
 		}
-		if fourH && !reported["F-4HQUERY"] {
-			reported["F-4HQUERY"] = true
-			res.Known("F-4HQUERY", fmt.Sprintf("QueryService.ExecuteQuery on bucket %s after %d written rows: 'no files returned from query parse' (the key's timeframe is rewritten to 2H); the same query through planner+reader on the unmodified key returns %d rows", key, nRows, tbl.N),
+		if fourH && !reported["F-4H"] {
+			reported["F-4H"] = true
+			res.Known("F-4H", fmt.Sprintf("QueryService.ExecuteQuery on bucket %s after %d written rows: 'no files returned from query parse' (the key's timeframe is rewritten to 2H); the same query through planner+reader on the unmodified key returns %d rows", key, nRows, tbl.N),
 				map[string]interface{}{"bucket": key, "written_epochs_first_request": epochs, "query": "ExecuteQuery(all time)", "returned": "error: no files returned from query parse"})
 		}
 		res.Count("queries", 1)
@@ -597,7 +597,7 @@ func init() {
 		Cases:        c08cases,
 		Batch:        20,
 		Run:          c08run,
-		BatchTimeout: 30 * time.Minute,
+		BatchTimeout: 90 * time.Minute,
 		Need:         []string{"rows_written", "queries", "rows_compared", "dup_within_request", "dup_across_requests", "year_first_interval_rows", "feb29_rows", "year_files_written_with_100plus_commands"},
 	})
 }
